@@ -139,6 +139,9 @@ def run_one(a, name, path, prop, neutral, results):
             env["VERIF_PEST_SRC"] = os.path.join(d, "src")
             env["VERIF_EVIDENCE_DIR"] = os.path.join(d, "evidence")
             env["VERIF_REPLAY_DIR"] = os.path.join(d, "replays")
+            # the self-test asks "is it detected", not for every minimised trace
+            env.setdefault("VERIF_MAX_SIGNATURES", "1")
+            env.setdefault("VERIF_MINIMISE_WALL_S", "45")
             cmd = [common.PYTHON, "-B", common.MAIN, prop, "--tier", a.tier]
             if a.jobs is not None:
                 cmd += ["--jobs", str(a.jobs)]
